@@ -928,3 +928,39 @@ theorem doSync_replay (m : Items K O) (l : List O) (hwf : WF key m) :
 
 end
 end KC
+
+namespace KC
+section
+variable {K O : Type} [DecidableEq K]
+variable (key : O → K) (ver : O → Option Int)
+
+theorem applyEv_frame (a a1 : AMap K O) (e : Ev O) (k : K) (h : applyEv key ver a e = some a1)
+    (hk : key e.obj ≠ k) : a1 k = a k := by
+  have hk' : ¬ k = key e.obj := fun h => hk h.symm
+  unfold applyEv at h
+  cases ht : e.t with
+  | delete =>
+    cases hav : a (key e.obj) with
+    | none => simp [ht, hav] at h
+    | some c => simp only [ht, hav, Option.some.injEq] at h; subst h; simp [AMap.set, hk']
+  | create =>
+    cases hv : ver e.obj with
+    | none => simp [ht, hv] at h
+    | some v =>
+      cases hav : a (key e.obj) with
+      | none => simp only [ht, hv, hav, Option.some.injEq] at h; subst h; simp [AMap.set, hk']
+      | some c => simp [ht, hv, hav] at h
+  | update =>
+    cases hv : ver e.obj with
+    | none => simp [ht, hv] at h
+    | some v =>
+      cases hav : a (key e.obj) with
+      | none => simp [ht, hv, hav] at h
+      | some c =>
+        simp only [ht, hv, hav] at h
+        split at h
+        · simp only [Option.some.injEq] at h; subst h; simp [AMap.set, hk']
+        · cases h
+
+end
+end KC
